@@ -92,12 +92,22 @@ func Gen(t *rapid.T, backend sim.Backend) *Program {
 	}
 	p.Victim = []*sim.Step{b}
 	nOps := rapid.IntRange(1, 5).Draw(t, "nops")
+	inserted := map[string]bool{}
 	for j := 0; j < nOps; j++ {
 		ops := []string{"set", "set", "set", "delete", "insert", "get"}
-		if pess {
+		// unistore records the commit of a lock-only (Op_Lock) key only when it is the primary, so a resolver
+		// cannot tell a committed lock-only secondary of an async-commit transaction from a missing one (TiKV
+		// writes a Lock record): no lock-only keys on unistore (no bare lock, no pessimistic insert-then-delete)
+		if pess && backend != sim.Uni {
 			ops = append(ops, "lock")
 		}
 		s := &sim.Step{Txn: 0, Op: rapid.SampledFrom(ops).Draw(t, "op"), Keys: []string{key("k")}}
+		if pess && backend == sim.Uni && s.Op == "delete" && inserted[s.Keys[0]] {
+			s.Op = "set"
+		}
+		if s.Op == "insert" {
+			inserted[s.Keys[0]] = true
+		}
 		switch s.Op {
 		case "set", "insert":
 			s.Val = fmt.Sprintf("v.%d", j)
